@@ -273,7 +273,16 @@ pub fn build_image(s: &Spec, generation: u8) -> Vec<u8> {
             use crate::speccodec::hll as h;
             let lg_k = (s.a as u8).clamp(4, 21);
             let mut r = Rng::new(s.seed);
-            let coupons: std::collections::BTreeSet<u32> = (0..n).map(|_| ((1 + r.geometric(40).min(60)) << 26) | (r.next_u32() & 0x3ff_ffff)).collect();
+            // geometric values as hashing gives them, one coupon in sixteen far above the rest (Hll4 exceptions)
+            let coupons: std::collections::BTreeSet<u32> = (0..n)
+                .map(|_| {
+                    let mut v = 1 + r.geometric(40).min(60);
+                    if r.chance(1, 16) {
+                        v = (v + 15 + r.below(30) as u32).min(63);
+                    }
+                    (v << 26) | (r.next_u32() & 0x3ff_ffff)
+                })
+                .collect();
             let list: Vec<u32> = coupons.iter().copied().collect();
             let mode = if list.len() < 8 { 0 } else if lg_k >= 8 && 4 * list.len() <= 3 * (1usize << (lg_k - 3)) { 1 } else { 2 };
             let regs = crate::model::hll::fold_coupons(coupons.iter(), lg_k);
@@ -281,7 +290,61 @@ pub fn build_image(s: &Spec, generation: u8) -> Vec<u8> {
             if mode == 2 && regs.iter().all(|&v| v == 0) {
                 return h::encode(lg_k, (s.b % 3) as u8, 0, &[], &regs, false, 0.0, layout);
             }
-            h::encode(lg_k, (s.b % 3) as u8, mode, &list, &regs, s.var & 2 != 0, list.len() as f64, layout)
+            let mut img = h::encode(lg_k, (s.b % 3) as u8, mode, &list, &regs, s.var & 2 != 0, list.len() as f64, layout);
+            // "Self-consistent lies": an Hll4 compact array image whose aux list is wrong while the
+            // derived header fields (kxq0/kxq1, numAtCurMin, auxCount) are recomputed to agree with
+            // the wrong reading - the kind of image no byte or bit campaign reaches, because three
+            // fields have to move together. A reader must reject it, or return a sketch that works.
+            let lie = (s.var >> 2) % 8;
+            if mode == 2 && s.b % 3 == 0 && layout == h::Layout::Compact && (1..=5).contains(&lie) {
+                let k = 1usize << lg_k;
+                let cur_min = *regs.iter().min().unwrap();
+                let aux: Vec<(usize, u8)> = regs.iter().enumerate().filter(|(_, v)| **v - cur_min >= 15).map(|(i, v)| (i, *v)).collect();
+                let aux_at = 40 + k / 2;
+                if !aux.is_empty() && img.len() >= aux_at + 4 * aux.len() {
+                    let pick = (s.var >> 5) as usize % aux.len();
+                    let (slot, val) = aux[pick];
+                    let mut read = regs.clone(); // the registers as the lying image wants them read
+                    let at = aux_at + 4 * pick;
+                    match lie {
+                        1 => {
+                            // the entry is the aux map's empty marker; the slot reads as 0
+                            img[at..at + 4].copy_from_slice(&0u32.to_le_bytes());
+                            read[slot] = 0;
+                        }
+                        2 => {
+                            // as 1, the slot read as cur_min (and counted there)
+                            img[at..at + 4].copy_from_slice(&0u32.to_le_bytes());
+                            read[slot] = cur_min;
+                            let n = u32::from_le_bytes(img[32..36].try_into().unwrap());
+                            img[32..36].copy_from_slice(&(n + 1).to_le_bytes());
+                        }
+                        3 => {
+                            // the entry names a slot whose nibble is not the exception marker
+                            let other = (0..k).find(|i| regs[*i] - cur_min < 15).unwrap_or(slot);
+                            img[at..at + 4].copy_from_slice(&(((val as u32) << 26) | other as u32).to_le_bytes());
+                            read[slot] = cur_min;
+                        }
+                        4 => {
+                            // an exception value that is not an exception
+                            let v = cur_min + 3;
+                            img[at..at + 4].copy_from_slice(&(((v as u32) << 26) | slot as u32).to_le_bytes());
+                            read[slot] = v;
+                        }
+                        _ => {
+                            // the entry twice, auxCount raised with it
+                            let e = img[at..at + 4].to_vec();
+                            img.extend_from_slice(&e);
+                            let n = u32::from_le_bytes(img[36..40].try_into().unwrap());
+                            img[36..40].copy_from_slice(&(n + 1).to_le_bytes());
+                        }
+                    }
+                    let (k0, k1) = h::kxq(&read);
+                    img[16..24].copy_from_slice(&k0.to_le_bytes());
+                    img[24..32].copy_from_slice(&k1.to_le_bytes());
+                }
+            }
+            img
         }
         "theta_foreign" => {
             use crate::speccodec::theta as t;
